@@ -2,7 +2,7 @@
    observation, and the executable statement of the property (oracle) evaluated
    on the implementation's observation.  Depends on Model/Spec only. *)
 From Coq Require Import NArith ZArith List Bool.
-From Dolt Require Import Base.Str C42.Model C42.Spec.
+From Dolt Require Import Base.Str C42.Model C42.Spec C42.NbsModel.
 Import ListNotations.
 Local Open Scope N_scope.
 
@@ -10,12 +10,34 @@ Local Open Scope N_scope.
    the empty store.  The fresh versions inside the write operations and the
    order of the concurrently executed steps are reported by the implementation
    (incidental choices: version generator, lock acquisition order). *)
-Definition input := (backend * schedule)%type.
-Definition obs := list res.                 (* one result per step, same order *)
+Inductive input :=
+| IBlob (b : backend) (sch : schedule)                       (* blobstore API case *)
+| INbs (n : nat) (univ : list N) (ops : list (nat * nop)).   (* NBS-on-blobstore case: clients, chunk universe, history *)
+
+(* NBS case, per step: result code, caller's Root(), persisted root, a fresh open's Root()
+   and the chunks of the universe it Has *)
+Record nobs := { no_res : N; no_croot : N; no_droot : N; no_froot : N; no_fhas : list N }.
+
+Inductive obs :=
+| OBlob (l : list res)                                       (* one result per step, same order *)
+| ONbs (bsinmem bslocal local : list nobs).                  (* the same history on the three stores *)
 Definition case := (input * obs)%type.
 
+Definition blob_model (b : backend) (sch : schedule) : list res :=
+  map snd (sched_trace b empty_store sch).
+
+Definition to_nobs (univ : list N) (o : N * N * mc) : nobs :=
+  let '(r, croot, m) := o in
+  {| no_res := r; no_croot := croot; no_droot := fst m; no_froot := fst m;
+     no_fhas := filter (fun x => mem_n x (snd m)) univ |}.
+
 Definition model_obs (i : input) : obs :=
-  map snd (sched_trace (fst i) empty_store (snd i)).
+  match i with
+  | IBlob b sch => OBlob (blob_model b sch)
+  | INbs n univ ops =>
+    ONbs (map (to_nobs univ) (nrun_bs InMem n ops)) (map (to_nobs univ) (nrun_bs Local n ops))
+         (map (to_nobs univ) (nrun_local n ops))
+  end.
 
 Definition res_eqb (a b : res) : bool :=
   match a, b with
@@ -28,14 +50,26 @@ Definition res_eqb (a b : res) : bool :=
   | _, _ => false
   end.
 
-Fixpoint obs_eqb (a b : obs) : bool :=
+Fixpoint list_eqb {A} (eqb : A -> A -> bool) (a b : list A) : bool :=
   match a, b with
   | [], [] => true
-  | x :: a', y :: b' => res_eqb x y && obs_eqb a' b'
+  | x :: a', y :: b' => eqb x y && list_eqb eqb a' b'
   | _, _ => false
   end.
 
-(* The property, as a predicate on what the implementation returned:
+Definition nobs_eqb (a b : nobs) : bool :=
+  (no_res a =? no_res b) && (no_croot a =? no_croot b) && (no_droot a =? no_droot b)
+  && (no_froot a =? no_froot b) && beq_bytes (no_fhas a) (no_fhas b).
+
+Definition obs_eqb (a b : obs) : bool :=
+  match a, b with
+  | OBlob x, OBlob y => list_eqb res_eqb x y
+  | ONbs a1 a2 a3, ONbs b1 b2 b3 => list_eqb nobs_eqb a1 b1 && list_eqb nobs_eqb a2 b2 && list_eqb nobs_eqb a3 b3
+  | _, _ => false
+  end.
+
+(* The property, as a predicate on what the implementation returned.
+   Blobstore API case:
    - every step's result is allowed by the sequential specification
      (CheckAndPut succeeds iff expected = stored version and then installs the
      contents, a failed one reports the stored version and changes nothing;
@@ -43,14 +77,25 @@ Fixpoint obs_eqb (a b : obs) : bool :=
      Concatenate stores the concatenation), in the given linearisation order;
    - order-independently: no two successful conditional writes share their
      expected version (exactly one winner per expected version);
-   - versions_distinct as measured: every write got a new, non-empty version. *)
-Definition oracle (i : input) (o : obs) : bool :=
-  let ops := map snd (snd i) in
+   - versions_distinct as measured: every write got a new, non-empty version.
+   NBS case: "a database stored on a blobstore offers the same root and chunk
+   semantics as a local one": the blobstore-backed stores' observations equal
+   the local directory store's, step by step. *)
+Definition blob_oracle (sch : schedule) (o : list res) : bool :=
+  let ops := map snd sch in
   let h := combine ops o in
   Nat.eqb (length o) (length ops)
   && spec_trace empty_store h
   && winners_ok h
   && fresh_trace [] h.
+
+Definition oracle (i : input) (o : obs) : bool :=
+  match i, o with
+  | IBlob _ sch, OBlob l => blob_oracle sch l
+  | INbs _ _ ops, ONbs a b c =>
+    Nat.eqb (length c) (length ops) && list_eqb nobs_eqb a c && list_eqb nobs_eqb b c
+  | _, _ => false
+  end.
 
 Definition check_case (c : case) : N :=
   (if obs_eqb (model_obs (fst c)) (snd c) then 0 else 1)
